@@ -6,6 +6,9 @@
 #include "nmtools/array/view/sum.hpp"
 #include "nmtools/array/view/prod.hpp"
 #include "nmtools/array/view/cumsum.hpp"
+#include "nmtools/array/view/ufuncs/logical_xor.hpp"
+#include "nmtools/array/view/ufuncs/logical_or.hpp"
+#include "nmtools/array/view/ufuncs/logical_and.hpp"
 #include "nmtools/array/view/cumprod.hpp"
 #include "nmtools/array/view/ufuncs/add.hpp"
 #include "nmtools/array/view/ufuncs/subtract.hpp"
@@ -14,6 +17,7 @@
 #include "nmtools/array/view/ufuncs/amin.hpp"
 using nm::None; using nm::True; using nm::False;
 // fold helpers over a constant range: FOLD(N, t, INIT0, STEP) - acc starts as the expression for t == 0, then acc = STEP
+constexpr size_t Z = 0;
 #define FOLDN(N, FIRST, NEXT) ([&]{ long acc = 0; for_<N>([&](auto T){ constexpr size_t t = T.value; (void)t; if constexpr (t == 0) acc = (FIRST); else acc = (NEXT); }); return acc; }())
 inline long mx(long a, long b) { return a > b ? a : b; }
 inline long mn(long a, long b) { return a < b ? a : b; }
@@ -105,6 +109,17 @@ void ob_c08c_dtype_acc(const NARR23<ET>& a)
 template void ob_c08c_dtype_acc<signed char>(const NARR23<signed char>&);
 template void ob_c08c_dtype_acc<unsigned char>(const NARR23<unsigned char>&);
 template void ob_c08c_dtype_acc<short>(const NARR23<short>&);
+// ---- logical reductions: the fold of the truth values, starting from the identity of the operation (so an axis of extent 1 yields the
+// truth value of its element, not the element)
+void ob_c08c_logical(const ARR<1,3>& b, const ARR<2,3>& c)
+{ PIN(b, 1,3); PIN(c, 2,3);
+    { VIEW(v, view::reduce_logical_and(b, 0)); EXPECT_VIEW1("C08.view.logical.shape", "C08.view.logical.and_over_a_unit_axis_is_the_truth_value", v, 3, (long)(b(Z,i) != 0), 0); }
+    { VIEW(v, view::reduce_logical_or(b, 0));  EXPECT_VIEW1("C08.view.logical.shape", "C08.view.logical.or_over_a_unit_axis_is_the_truth_value", v, 3, (long)(b(Z,i) != 0), 1); }
+    { VIEW(v, view::reduce_logical_xor(b, 0)); EXPECT_VIEW1("C08.view.logical.shape", "C08.view.logical.xor_over_a_unit_axis_is_the_truth_value", v, 3, (long)(b(Z,i) != 0), 2); }
+    { VIEW(v, view::reduce_logical_and(c, 0)); EXPECT_VIEW1("C08.view.logical.shape", "C08.view.logical.and_is_the_conjunction", v, 3, (long)((c(Z,i) != 0) && (c(Z+1,i) != 0)), 3); }
+    { VIEW(v, view::reduce_logical_or(c, 1));  EXPECT_VIEW1("C08.view.logical.shape", "C08.view.logical.or_is_the_disjunction", v, 2, (long)((c(i,Z) != 0) || (c(i,Z+1) != 0) || (c(i,Z+2) != 0)), 4); }
+    { VIEW(v, view::reduce_logical_xor(c, -1)); EXPECT_VIEW1("C08.view.logical.shape", "C08.view.logical.xor_is_the_parity", v, 2, (long)((c(i,Z) != 0) ^ (c(i,Z+1) != 0) ^ (c(i,Z+2) != 0)), 5); }
+}
 // ---- other operations: the non-commutative one (order), product, maximum / minimum
 void ob_c08c_ops(const ARR<2,3>& a, long init)
 { PIN(a, 2,3);
